@@ -1,6 +1,1060 @@
-//! C16 -- (stub; see DESIGN.md section 5)
-use crate::util::Args;
+//! C16: DVI codec (dvi::serialize / dvi::Op::deserialize) and transforms::VarRemover.
+//!
+//! Subcommands
+//!   c16-walk   lts=<table> maxlen=L out=F      binding R: every op history up to length L over the
+//!                                               table's alphabet through the real VarRemover; the
+//!                                               expected output op of each step is *looked up* in the
+//!                                               TLC-generated table (never computed here).
+//!   c16-trace  seed= n= len= out=F              binding T: long random op streams through VarRemover
+//!                                               and dvi::Values, one event per op.
+//!   c16-codec  seed= n= reps= out=F             binding F: serialize/deserialize call events
+//!                                               (fn = "rt" | "dec").
+//!   c16-pipe   seed= n= out=F                   binding F: whole-stream events (fn = "rv" | "pipe")
+//!                                               with unrestricted 32-bit operands.
+//!   c16-replay in=<replay.json>                 re-run one recorded case on the real code.
+//!
+//! JSON shape of an op = the TLA+ record of specs/DviEnc.tla: {"k": kind, ...}; unsigned 32-bit
+//! values are [hi16, lo16], signed ones plain integers, strings / payloads arrays of bytes.
+use crate::lts::Lts;
+use crate::util::{catch, quiet_panics, Args, Out, Rng};
+use dvi::transforms::VarRemover;
+use dvi::{InvalidDviData, Op, Values, Var};
+use serde_json::{json, Value};
 
-pub fn dispatch(_cmd: &str, _args: &Args) -> Option<i32> {
-    None
+pub fn dispatch(cmd: &str, args: &Args) -> Option<i32> {
+    Some(match cmd {
+        "c16-walk" => walk(args),
+        "c16-trace" => trace(args),
+        "c16-codec" => codec(args),
+        "c16-pipe" => pipe(args),
+        "c16-replay" => replay(args),
+        _ => return None,
+    })
+}
+
+// ------------------------------------------------------------------------------------------
+// Op <-> JSON
+// ------------------------------------------------------------------------------------------
+fn u(v: u32) -> Value {
+    json!([v >> 16, v & 0xffff])
+}
+fn bytes_json(b: &[u8]) -> Value {
+    Value::Array(b.iter().map(|x| json!(*x)).collect())
+}
+fn var_no(v: Var) -> u8 {
+    v as u8
+}
+fn var_of(n: u64) -> Var {
+    match n {
+        0 => Var::W,
+        1 => Var::X,
+        2 => Var::Y,
+        3 => Var::Z,
+        _ => panic!("bad var {n}"),
+    }
+}
+
+pub fn op_json(op: &Op) -> Value {
+    match op {
+        Op::TypesetChar { char, move_h } => json!({"k":"char","c":u(*char),"mv":move_h}),
+        Op::TypesetRule { height, width, move_h } => {
+            json!({"k":"rule","ht":height,"wd":width,"mv":move_h})
+        }
+        Op::NoOp => json!({"k":"nop"}),
+        Op::BeginPage { parameters, previous_begin_page } => {
+            json!({"k":"bop","p":parameters.to_vec(),"prev":previous_begin_page})
+        }
+        Op::EndPage => json!({"k":"eop"}),
+        Op::Push => json!({"k":"push"}),
+        Op::Pop => json!({"k":"pop"}),
+        Op::Right(d) => json!({"k":"right","d":d}),
+        Op::Move(v) => json!({"k":"move","var":var_no(*v)}),
+        Op::SetVar(v, d) => json!({"k":"setvar","var":var_no(*v),"d":d}),
+        Op::Down(d) => json!({"k":"down","d":d}),
+        Op::EnableFont(n) => json!({"k":"font","n":u(*n)}),
+        Op::Extension(data) => json!({"k":"xxx","data":bytes_json(data)}),
+        Op::DefineFont { number, checksum, at_size, design_size, area, name } => json!({
+            "k":"fontdef","n":u(*number),"ck":u(*checksum),"at":u(*at_size),"ds":u(*design_size),
+            "area":bytes_json(area.as_bytes()),"name":bytes_json(name.as_bytes())}),
+        Op::Preamble { dvi_format, unit_numerator, unit_denominator, magnification, comment } => json!({
+            "k":"pre","fmt":dvi_format,"num":u(*unit_numerator),"den":u(*unit_denominator),
+            "mag":u(*magnification),"comment":bytes_json(comment.as_bytes())}),
+        Op::BeginPostamble {
+            final_begin_page,
+            unit_numerator,
+            unit_denominator,
+            magnification,
+            largest_height,
+            largest_width,
+            max_stack_depth,
+            num_pages,
+        } => json!({
+            "k":"post","last":final_begin_page,"num":u(*unit_numerator),"den":u(*unit_denominator),
+            "mag":u(*magnification),"ht":u(*largest_height),"wd":u(*largest_width),
+            "depth":max_stack_depth,"pages":num_pages}),
+        Op::EndPostamble { postamble, dvi_format, num_223_bytes } => {
+            json!({"k":"postpost","post":postamble,"fmt":dvi_format,"n223":num_223_bytes})
+        }
+    }
+}
+
+fn ju(v: &Value) -> u32 {
+    let a = v.as_array().expect("u32 pair");
+    ((a[0].as_u64().unwrap() as u32) << 16) | a[1].as_u64().unwrap() as u32
+}
+fn ji(v: &Value) -> i32 {
+    v.as_i64().expect("i32") as i32
+}
+fn jbytes(v: &Value) -> Vec<u8> {
+    v.as_array().expect("bytes").iter().map(|x| x.as_u64().unwrap() as u8).collect()
+}
+fn jstring(v: &Value) -> String {
+    String::from_utf8(jbytes(v)).expect("utf-8 string in replayed op")
+}
+
+pub fn op_of(v: &Value) -> Op {
+    match v["k"].as_str().expect("op kind") {
+        "char" => Op::TypesetChar { char: ju(&v["c"]), move_h: v["mv"].as_bool().unwrap() },
+        "rule" => Op::TypesetRule {
+            height: ji(&v["ht"]),
+            width: ji(&v["wd"]),
+            move_h: v["mv"].as_bool().unwrap(),
+        },
+        "nop" => Op::NoOp,
+        "bop" => {
+            let mut parameters = [0i32; 10];
+            if let Some(p) = v.get("p").and_then(|p| p.as_array()) {
+                for (i, x) in p.iter().enumerate() {
+                    parameters[i] = ji(x);
+                }
+            }
+            Op::BeginPage {
+                parameters,
+                previous_begin_page: v.get("prev").map(ji).unwrap_or(-1),
+            }
+        }
+        "eop" => Op::EndPage,
+        "push" => Op::Push,
+        "pop" => Op::Pop,
+        "right" => Op::Right(ji(&v["d"])),
+        "down" => Op::Down(ji(&v["d"])),
+        "move" => Op::Move(var_of(v["var"].as_u64().unwrap())),
+        "setvar" => Op::SetVar(var_of(v["var"].as_u64().unwrap()), ji(&v["d"])),
+        "font" => Op::EnableFont(ju(&v["n"])),
+        "xxx" => Op::Extension(jbytes(&v["data"])),
+        "fontdef" => Op::DefineFont {
+            number: ju(&v["n"]),
+            checksum: ju(&v["ck"]),
+            at_size: ju(&v["at"]),
+            design_size: ju(&v["ds"]),
+            area: jstring(&v["area"]),
+            name: jstring(&v["name"]),
+        },
+        "pre" => Op::Preamble {
+            dvi_format: v["fmt"].as_u64().unwrap() as u8,
+            unit_numerator: ju(&v["num"]),
+            unit_denominator: ju(&v["den"]),
+            magnification: ju(&v["mag"]),
+            comment: jstring(&v["comment"]),
+        },
+        "post" => Op::BeginPostamble {
+            final_begin_page: ji(&v["last"]),
+            unit_numerator: ju(&v["num"]),
+            unit_denominator: ju(&v["den"]),
+            magnification: ju(&v["mag"]),
+            largest_height: ju(&v["ht"]),
+            largest_width: ju(&v["wd"]),
+            max_stack_depth: v["depth"].as_u64().unwrap() as u16,
+            num_pages: v["pages"].as_u64().unwrap() as u16,
+        },
+        "postpost" => Op::EndPostamble {
+            postamble: ji(&v["post"]),
+            dvi_format: v["fmt"].as_u64().unwrap() as u8,
+            num_223_bytes: v["n223"].as_u64().unwrap() as usize,
+        },
+        k => panic!("unknown op kind {k}"),
+    }
+}
+
+fn ops_json(ops: &[Op]) -> Value {
+    Value::Array(ops.iter().map(op_json).collect())
+}
+
+fn err_json(r: &Result<(), InvalidDviData>) -> Value {
+    match r {
+        Ok(()) => json!(["ok"]),
+        Err(InvalidDviData::InvalidOpCode(c)) => json!(["invalid", c]),
+        Err(InvalidDviData::Truncated(c)) => json!(["truncated", c]),
+    }
+}
+
+// ------------------------------------------------------------------------------------------
+// the code under test, wrapped so that a panic is data
+// ------------------------------------------------------------------------------------------
+
+/// Run the real VarRemover over `ops`, one `next()` at a time.  Returns the ops produced and the
+/// panic (site, message) if one happened.
+fn run_remover(ops: &[Op]) -> (Vec<Op>, Option<(String, String)>) {
+    let mut it = VarRemover::new(ops.to_vec());
+    let mut out = vec![];
+    loop {
+        match catch(|| it.next()) {
+            Ok(Some(op)) => out.push(op),
+            Ok(None) => return (out, None),
+            Err(p) => return (out, Some(p)),
+        }
+    }
+}
+
+/// Deserialize with the public one-op API so that the unconsumed tail is observable.
+fn run_decode(b: &[u8]) -> Result<(Vec<Op>, Result<(), InvalidDviData>, usize), (String, String)> {
+    catch(|| {
+        let mut ops = vec![];
+        let mut rest = b;
+        loop {
+            match Op::deserialize(rest) {
+                Ok(None) => return (ops, Ok(()), rest.len()),
+                Ok(Some((op, tail))) => {
+                    ops.push(op);
+                    rest = tail;
+                }
+                Err(e) => return (ops, Err(e), rest.len()),
+            }
+        }
+    })
+}
+
+/// The iterator API must agree with the one-op API (it is what dvitools uses).
+fn run_decode_iter(b: &[u8]) -> Result<(Vec<Op>, Result<(), InvalidDviData>), (String, String)> {
+    catch(|| {
+        let mut result = Ok(());
+        let ops: Vec<Op> = dvi::Deserializer::new(b, &mut result).collect();
+        (ops, result)
+    })
+}
+
+// ------------------------------------------------------------------------------------------
+// binding R: table walk
+// ------------------------------------------------------------------------------------------
+fn walk(args: &Args) -> i32 {
+    quiet_panics();
+    let lts = Lts::load(args.req("lts"));
+    let maxlen: usize = args.num("maxlen", 4);
+    let mut out = Out::new(args.str("out"));
+    let ops: Vec<Op> = lts.ops.iter().map(op_of).collect();
+    // the initial state is the one with zero variables and an empty stack
+    let init_key = serde_json::to_string(&json!({"stack":[],"vars":[0,0,0,0]})).unwrap();
+    let init = match lts.index.get(&init_key) {
+        Some(i) => *i,
+        None => {
+            eprintln!("initial state not in the table");
+            return 2;
+        }
+    };
+    struct W<'a> {
+        lts: &'a Lts,
+        ops: &'a [Op],
+        nodes: u64,
+        leaves: u64,
+        checked: u64,
+        with_var: u64,
+        violations: Vec<Value>,
+        sample: Option<Value>,
+    }
+    impl<'a> W<'a> {
+        fn check(&mut self, hist: &[usize], path: &[usize]) {
+            let input: Vec<Op> = hist.iter().map(|i| self.ops[*i].clone()).collect();
+            let (got, panic) = run_remover(&input);
+            self.checked += 1;
+            let mut err = None;
+            if let Some((site, msg)) = panic {
+                err = Some(format!("panic at {site}: {msg}"));
+            } else if got.len() != input.len() {
+                err = Some(format!("{} ops in, {} ops out", input.len(), got.len()));
+            } else {
+                for (i, g) in got.iter().enumerate() {
+                    let (_, res) = self.lts.edges[path[i]][hist[i]].as_ref().unwrap();
+                    let want = op_of(res);
+                    if *g != want {
+                        err = Some(format!(
+                            "output op {} is {}, the table says {}",
+                            i + 1,
+                            op_json(g),
+                            res
+                        ));
+                        break;
+                    }
+                }
+            }
+            if let Some(e) = err {
+                if self.violations.len() < 10 {
+                    self.violations.push(json!({
+                        "kind":"violation","part":"walk","error":e,
+                        "history": ops_json(&input), "got": ops_json(&got)}));
+                }
+            }
+        }
+        fn dfs(&mut self, hist: &mut Vec<usize>, path: &mut Vec<usize>, left: usize) {
+            let st = *path.last().unwrap();
+            let mut extended = false;
+            if left > 0 {
+                for oi in 0..self.ops.len() {
+                    let t = match &self.lts.edges[st][oi] {
+                        Some((t, _)) => *t as usize,
+                        None => continue, // beyond the depth bound of the table
+                    };
+                    extended = true;
+                    hist.push(oi);
+                    path.push(t);
+                    self.nodes += 1;
+                    self.dfs(hist, path, left - 1);
+                    hist.pop();
+                    path.pop();
+                }
+            }
+            if !extended && !hist.is_empty() {
+                // maximal history: its output covers every prefix
+                self.leaves += 1;
+                if hist.iter().any(|i| matches!(self.ops[*i], Op::Move(_) | Op::SetVar(..))) {
+                    self.with_var += 1;
+                }
+                if self.sample.is_none() && self.leaves == 77_777 % (self.ops.len() as u64).pow(3).max(2) {
+                    self.sample = Some(ops_json(&hist.iter().map(|i| self.ops[*i].clone()).collect::<Vec<_>>()));
+                }
+                self.check(hist, path);
+            }
+        }
+    }
+    // partition the histories by their first op over `threads` workers (deterministic)
+    let threads: usize = args.num("threads", 4).max(1);
+    let first: Vec<usize> = (0..ops.len()).filter(|oi| lts.edges[init][*oi].is_some()).collect();
+    let results: Vec<(u64, u64, u64, Vec<Value>, Option<Value>)> = std::thread::scope(|sc| {
+        let hs: Vec<_> = (0..threads)
+            .map(|ti| {
+                let (lts, ops, first) = (&lts, &ops, &first);
+                sc.spawn(move || {
+                    quiet_panics();
+                    let mut w = W {
+                        lts,
+                        ops,
+                        nodes: 0,
+                        leaves: 0,
+                        checked: 0,
+                        with_var: 0,
+                        violations: vec![],
+                        sample: None,
+                    };
+                    for (j, oi) in first.iter().enumerate() {
+                        if j % threads != ti {
+                            continue;
+                        }
+                        let t = lts.edges[init][*oi].as_ref().unwrap().0 as usize;
+                        w.nodes += 1;
+                        w.dfs(&mut vec![*oi], &mut vec![init, t], maxlen.saturating_sub(1));
+                    }
+                    (w.nodes, w.leaves, w.with_var, w.violations, w.sample)
+                })
+            })
+            .collect();
+        hs.into_iter().map(|h| h.join().expect("walker thread")).collect()
+    });
+    let (mut nodes, mut leaves, mut with_var, mut sample) = (0, 0, 0, None);
+    for (n, l, wv, viol, s) in results {
+        nodes += n;
+        leaves += l;
+        with_var += wv;
+        for v in viol.iter().take(4) {
+            out.line(v);
+        }
+        if sample.is_none() {
+            sample = s;
+        }
+    }
+    out.line(&json!({
+        "kind":"summary","part":"walk","maxlen":maxlen,"nodes":nodes,"histories":leaves,
+        "with_var_op":with_var,"lts_states":lts.states.len(),"lts_edges":lts.n_edges,
+        "alphabet":ops.len(),"sample":sample}));
+    0
+}
+
+// ------------------------------------------------------------------------------------------
+// generators (inputs only -- no expected values are computed here)
+// ------------------------------------------------------------------------------------------
+const I_BOUNDS: [i64; 9] = [0, 1 << 7, 1 << 15, 1 << 23, (1 << 31) - 1, -(1 << 7), -(1 << 15), -(1 << 23), -(1 << 31)];
+
+/// a signed operand near a width boundary, or uniformly inside a width class
+fn gen_i32(r: &mut Rng) -> i32 {
+    let v: i64 = match r.below(4) {
+        0 => *r.pick(&I_BOUNDS) + r.range(-2, 2),
+        1 => r.range(-130, 130),
+        2 => {
+            let bits = r.range(1, 31) as u32;
+            let m = r.below(1u64 << bits) as i64;
+            if r.chance(1, 2) {
+                m
+            } else {
+                -m - 1
+            }
+        }
+        _ => *r.pick(&I_BOUNDS),
+    };
+    v.clamp(i32::MIN as i64, i32::MAX as i64) as i32
+}
+
+const U_BOUNDS: [u64; 9] = [0, 64, 128, 256, 1 << 16, 1 << 24, 1 << 31, (1 << 32) - 1, 223];
+
+fn gen_u32(r: &mut Rng) -> u32 {
+    let v: i64 = match r.below(4) {
+        0 => *r.pick(&U_BOUNDS) as i64 + r.range(-2, 2),
+        1 => r.range(0, 300),
+        2 => {
+            let bits = r.range(1, 32) as u32;
+            r.below(1u64 << bits) as i64
+        }
+        _ => *r.pick(&U_BOUNDS) as i64,
+    };
+    v.clamp(0, u32::MAX as i64) as u32
+}
+
+/// a string of at most `max` bytes: ASCII, or valid multi-byte UTF-8
+fn gen_string(r: &mut Rng, max: usize) -> String {
+    let target = match r.below(6) {
+        0 => 0,
+        1 => max,
+        2 => max.saturating_sub(1),
+        3 => r.below(6) as usize,
+        _ => r.below(max as u64 + 1) as usize,
+    };
+    let mut s = String::new();
+    let multi = r.chance(1, 3);
+    while s.len() < target {
+        let c = if multi && r.chance(1, 3) {
+            *r.pick(&['é', 'ß', '€', '𝕏', '\u{7ff}', '\u{800}', '\u{ffff}'])
+        } else {
+            (r.range(0, 127) as u8) as char
+        };
+        if s.len() + c.len_utf8() > target {
+            if s.len() + 1 <= target {
+                s.push('a');
+            }
+            continue;
+        }
+        s.push(c);
+    }
+    s
+}
+
+fn gen_payload(r: &mut Rng) -> Vec<u8> {
+    let len = match r.below(8) {
+        0 => 0,
+        1 => 255,
+        2 => 256,
+        3 => r.range(1, 4) as usize,
+        4 => r.range(250, 300) as usize,
+        _ => r.below(40) as usize,
+    };
+    (0..len).map(|_| if r.chance(1, 6) { 223 } else { r.below(256) as u8 }).collect()
+}
+
+fn gen_var(r: &mut Rng) -> Var {
+    var_of(r.below(4))
+}
+
+/// any op of the format, operands over the full 32-bit range
+fn gen_op(r: &mut Rng) -> Op {
+    match r.below(19) {
+        0 | 1 => Op::TypesetChar { char: gen_u32(r), move_h: r.chance(1, 2) },
+        2 => Op::TypesetRule { height: gen_i32(r), width: gen_i32(r), move_h: r.chance(1, 2) },
+        3 => Op::NoOp,
+        4 => {
+            let mut parameters = [0i32; 10];
+            for p in parameters.iter_mut() {
+                *p = gen_i32(r);
+            }
+            Op::BeginPage { parameters, previous_begin_page: gen_i32(r) }
+        }
+        5 => Op::EndPage,
+        6 => Op::Push,
+        7 => Op::Pop,
+        8 => Op::Right(gen_i32(r)),
+        9 => Op::Move(gen_var(r)),
+        10 | 11 => Op::SetVar(gen_var(r), gen_i32(r)),
+        12 => Op::Down(gen_i32(r)),
+        13 => Op::EnableFont(if r.chance(1, 4) { r.range(48, 66) as u32 } else { gen_u32(r) }),
+        14 => Op::Extension(gen_payload(r)),
+        15 => Op::DefineFont {
+            number: gen_u32(r),
+            checksum: gen_u32(r),
+            at_size: gen_u32(r),
+            design_size: gen_u32(r),
+            area: gen_string(r, 255),
+            name: gen_string(r, 255),
+        },
+        16 => Op::Preamble {
+            dvi_format: r.below(256) as u8,
+            unit_numerator: gen_u32(r),
+            unit_denominator: gen_u32(r),
+            magnification: gen_u32(r),
+            comment: gen_string(r, 255),
+        },
+        17 => Op::BeginPostamble {
+            final_begin_page: gen_i32(r),
+            unit_numerator: gen_u32(r),
+            unit_denominator: gen_u32(r),
+            magnification: gen_u32(r),
+            largest_height: gen_u32(r),
+            largest_width: gen_u32(r),
+            max_stack_depth: *r.pick(&[0u16, 1, 255, 256, 65535]),
+            num_pages: r.below(65536) as u16,
+        },
+        _ => Op::EndPostamble {
+            postamble: gen_i32(r),
+            dvi_format: *r.pick(&[2u8, 3, 223, 0, 255]),
+            num_223_bytes: r.below(9) as usize,
+        },
+    }
+}
+
+/// an op for the register machine traces: distances bounded by `mag` so that no position can
+/// leave the 32-bit range within one trace (the generator does not track positions)
+fn gen_machine_op(r: &mut Rng, mag: i64, page_bias: bool) -> Op {
+    let dist = |r: &mut Rng| -> i32 {
+        let v = match r.below(5) {
+            0 => r.range(-3, 3),
+            1 => *r.pick(&[127i64, 128, -128, -129, 32767, 32768, -32768, -32769, 65536]),
+            2 => 0,
+            _ => r.range(-mag, mag),
+        };
+        v.clamp(-mag, mag) as i32
+    };
+    match r.below(if page_bias { 34 } else { 32 }) {
+        0..=3 => Op::TypesetChar { char: *r.pick(&[65u32, 66, 300, 70000]), move_h: r.chance(2, 3) },
+        4 | 5 => Op::TypesetRule { height: dist(r), width: dist(r), move_h: r.chance(1, 2) },
+        6..=8 => Op::Push,
+        9..=11 => Op::Pop,
+        12 | 13 => Op::Right(dist(r)),
+        14 | 15 => Op::Down(dist(r)),
+        16..=20 => Op::SetVar(gen_var(r), dist(r)),
+        21..=26 => Op::Move(gen_var(r)),
+        27 | 28 => Op::EnableFont(*r.pick(&[0u32, 1, 63, 64, 1000])),
+        29 => Op::NoOp,
+        30 => Op::Extension(vec![b'x'; r.below(3) as usize]),
+        31 => Op::EndPage,
+        _ => Op::BeginPage { parameters: [r.range(-1, 9) as i32; 10], previous_begin_page: -1 },
+    }
+}
+
+// ------------------------------------------------------------------------------------------
+// binding T: VarRemover + Values traces
+// ------------------------------------------------------------------------------------------
+fn values_json(v: &Values) -> Value {
+    let (h, cs) = v.h();
+    json!({
+        "h": h,
+        "cs": cs.iter().map(|(c, f)| json!([u(*c), u(*f)])).collect::<Vec<_>>(),
+        "v": v.v(),
+        "vars": [v.w(), v.x(), v.y(), v.z()],
+        "f": u(v.f()),
+    })
+}
+
+fn emit_trace(out: &mut Out, ops: &[Op]) {
+    out.raw(r#"{"ev":"reset"}"#);
+    let (got, panic) = run_remover(ops);
+    let mut values: Values = Default::default();
+    for (i, op) in ops.iter().enumerate() {
+        if i >= got.len() {
+            break;
+        }
+        match catch(|| {
+            values.update(op);
+        }) {
+            Ok(()) => {}
+            Err((site, msg)) => {
+                out.line(&json!({"ev":"panic","site":site,"msg":msg,"in":op_json(op),"where":"Values::update"}));
+                return;
+            }
+        }
+        out.line(&json!({"ev":"op","in":op_json(op),"out":op_json(&got[i]),"val":values_json(&values)}));
+    }
+    if let Some((site, msg)) = panic {
+        out.line(&json!({"ev":"panic","site":site,"msg":msg,"where":"VarRemover::next"}));
+        return;
+    }
+    out.line(&json!({"ev":"end","nin":ops.len(),"nout":got.len()}));
+}
+
+fn trace(args: &Args) -> i32 {
+    quiet_panics();
+    let seed: u64 = args.num("seed", 1);
+    let n: usize = args.num("n", 10);
+    let len: usize = args.num("len", 200);
+    let mut out = Out::new(args.str("out"));
+    let mut r = Rng::new(seed ^ 0xC16);
+    // |sum of distances| < len * mag must stay below 2^31
+    let mag: i64 = ((1i64 << 30) / (len.max(1) as i64)).min(1 << 22);
+    for i in 0..n {
+        let mut ops = vec![];
+        let l = if i % 4 == 0 { len } else { r.range(1, len as i64) as usize };
+        let pages = i % 3 != 0;
+        for _ in 0..l {
+            ops.push(gen_machine_op(&mut r, mag, pages));
+        }
+        // make sure the last position is observed by something typeset
+        ops.push(Op::TypesetChar { char: 90, move_h: false });
+        emit_trace(&mut out, &ops);
+    }
+    0
+}
+
+// ------------------------------------------------------------------------------------------
+// binding F: codec call events
+// ------------------------------------------------------------------------------------------
+fn emit_rt(out: &mut Out, ops: &[Op]) {
+    let ops_v = ops.to_vec();
+    let bytes = match catch(|| dvi::serialize(ops_v)) {
+        Ok(b) => b,
+        Err((site, msg)) => {
+            out.line(&json!({"fn":"rt","ops":ops_json(ops),"panic":[site,msg],"where":"serialize"}));
+            return;
+        }
+    };
+    match run_decode(&bytes) {
+        Ok((dec, res, rest)) => {
+            // the iterator API must tell the same story
+            let same = match run_decode_iter(&bytes) {
+                Ok((d2, r2)) => d2 == dec && r2 == res,
+                Err(_) => false,
+            };
+            if !same {
+                out.line(&json!({"fn":"rt","ops":ops_json(ops),"bytes":bytes_json(&bytes),
+                    "panic":["crates/dvi/src/lib.rs","Deserializer iterator disagrees with Op::deserialize"]}));
+                return;
+            }
+            out.line(&json!({"fn":"rt","ops":ops_json(ops),"bytes":bytes_json(&bytes),
+                "dec":ops_json(&dec),"err":err_json(&res),"rest":rest}));
+        }
+        Err((site, msg)) => {
+            out.line(&json!({"fn":"rt","ops":ops_json(ops),"bytes":bytes_json(&bytes),"panic":[site,msg],"where":"deserialize"}));
+        }
+    }
+}
+
+fn emit_dec(out: &mut Out, bytes: &[u8]) -> bool {
+    match run_decode(bytes) {
+        Ok((dec, res, rest)) => {
+            let same = match run_decode_iter(bytes) {
+                Ok((d2, r2)) => d2 == dec && r2 == res,
+                Err(_) => false,
+            };
+            if !same {
+                out.line(&json!({"fn":"dec","bytes":bytes_json(bytes),
+                    "panic":["crates/dvi/src/lib.rs","Deserializer iterator disagrees with Op::deserialize"]}));
+                return false;
+            }
+            let lossy = dec.iter().any(|o| match o {
+                Op::DefineFont { area, name, .. } => !area.is_ascii() || !name.is_ascii(),
+                Op::Preamble { comment, .. } => !comment.is_ascii(),
+                _ => false,
+            });
+            out.line(&json!({"fn":"dec","bytes":bytes_json(bytes),"ops":ops_json(&dec),"err":err_json(&res),"rest":rest}));
+            lossy
+        }
+        Err((site, msg)) => {
+            out.line(&json!({"fn":"dec","bytes":bytes_json(bytes),"panic":[site,msg]}));
+            false
+        }
+    }
+}
+
+/// bytes biased towards the values that sit on width and sign boundaries
+fn gen_byte(r: &mut Rng) -> u8 {
+    match r.below(8) {
+        0 => 0,
+        1 => 255,
+        2 => 128,
+        3 => 127,
+        4 => 223,
+        5 => r.below(8) as u8,
+        _ => r.below(256) as u8,
+    }
+}
+
+/// every op kind with every boundary operand (the directed part of the "rt" events)
+fn directed_ops() -> Vec<Op> {
+    let mut v = vec![];
+    let mut ib: Vec<i32> = vec![];
+    for b in I_BOUNDS {
+        for d in -2..=2 {
+            let x = b + d;
+            if x >= i32::MIN as i64 && x <= i32::MAX as i64 {
+                ib.push(x as i32);
+            }
+        }
+    }
+    let mut ub: Vec<u32> = vec![];
+    for b in U_BOUNDS {
+        for d in -2i64..=2 {
+            let x = b as i64 + d;
+            if x >= 0 && x <= u32::MAX as i64 {
+                ub.push(x as u32);
+            }
+        }
+    }
+    for x in &ib {
+        v.push(Op::Right(*x));
+        v.push(Op::Down(*x));
+        for var in 0..4 {
+            v.push(Op::SetVar(var_of(var), *x));
+        }
+        v.push(Op::TypesetRule { height: *x, width: x.wrapping_neg(), move_h: x % 2 == 0 });
+        v.push(Op::BeginPage { parameters: [*x, 0, -1, 1, *x, 127, 128, -128, -129, *x], previous_begin_page: *x });
+        v.push(Op::BeginPostamble {
+            final_begin_page: *x,
+            unit_numerator: 25400000,
+            unit_denominator: 473628672,
+            magnification: 1000,
+            largest_height: 1,
+            largest_width: 2,
+            max_stack_depth: 3,
+            num_pages: 4,
+        });
+        v.push(Op::EndPostamble { postamble: *x, dvi_format: 2, num_223_bytes: 4 });
+    }
+    for x in &ub {
+        v.push(Op::TypesetChar { char: *x, move_h: true });
+        v.push(Op::TypesetChar { char: *x, move_h: false });
+        v.push(Op::EnableFont(*x));
+        v.push(Op::DefineFont {
+            number: *x,
+            checksum: x.wrapping_mul(2654435761),
+            at_size: *x,
+            design_size: !*x,
+            area: String::new(),
+            name: "cmr10".to_string(),
+        });
+        v.push(Op::Preamble {
+            dvi_format: 2,
+            unit_numerator: *x,
+            unit_denominator: !*x,
+            magnification: x.rotate_left(8),
+            comment: " TeX output".to_string(),
+        });
+        v.push(Op::BeginPostamble {
+            final_begin_page: -1,
+            unit_numerator: *x,
+            unit_denominator: x.rotate_left(8),
+            magnification: x.rotate_left(16),
+            largest_height: x.rotate_left(24),
+            largest_width: !*x,
+            max_stack_depth: (*x & 0xffff) as u16,
+            num_pages: (*x >> 16) as u16,
+        });
+    }
+    for c in 0..=255u32 {
+        v.push(Op::TypesetChar { char: c, move_h: true });
+        v.push(Op::EnableFont(c));
+    }
+    for var in 0..4 {
+        v.push(Op::Move(var_of(var)));
+    }
+    for op in [Op::NoOp, Op::EndPage, Op::Push, Op::Pop] {
+        v.push(op);
+    }
+    for len in [0usize, 1, 2, 127, 128, 254, 255] {
+        let s: String = (0..len).map(|i| (b'a' + (i % 26) as u8) as char).collect();
+        v.push(Op::Preamble { dvi_format: 2, unit_numerator: 1, unit_denominator: 2, magnification: 3, comment: s.clone() });
+        v.push(Op::DefineFont { number: 1, checksum: 2, at_size: 3, design_size: 4, area: s.clone(), name: String::new() });
+        v.push(Op::DefineFont { number: 1, checksum: 2, at_size: 3, design_size: 4, area: String::new(), name: s.clone() });
+        v.push(Op::DefineFont { number: 1, checksum: 2, at_size: 3, design_size: 4, area: s.clone(), name: s.clone() });
+        v.push(Op::Extension(s.as_bytes().to_vec()));
+    }
+    for len in [256usize, 257, 1000] {
+        v.push(Op::Extension((0..len).map(|i| (i * 7) as u8).collect()));
+    }
+    for n in [0usize, 1, 3, 4, 7, 20] {
+        v.push(Op::EndPostamble { postamble: 100, dvi_format: 2, num_223_bytes: n });
+    }
+    v
+}
+
+fn codec(args: &Args) -> i32 {
+    quiet_panics();
+    let seed: u64 = args.num("seed", 1);
+    let n: usize = args.num("n", 1000);
+    let reps: usize = args.num("reps", 1);
+    let mut out = Out::new(args.str("out"));
+    let mut r = Rng::new(seed ^ 0xC16C0DEC);
+    let mut lossy = 0u64;
+    // ---- rt: directed single ops
+    let directed = directed_ops();
+    for op in &directed {
+        emit_rt(&mut out, std::slice::from_ref(op));
+    }
+    // ---- rt: the concatenation ambiguity, directed
+    let pp = |n| Op::EndPostamble { postamble: 7, dvi_format: 2, num_223_bytes: n };
+    for seq in [
+        vec![pp(0), Op::EnableFont(52)],
+        vec![pp(4), Op::EnableFont(52), Op::NoOp],
+        vec![pp(4), Op::EnableFont(51)],
+        vec![pp(4), Op::EnableFont(53), Op::EnableFont(52)],
+        vec![pp(2), pp(2)],
+        vec![pp(4), Op::TypesetChar { char: 223, move_h: true }],
+        vec![pp(4), Op::TypesetChar { char: 223, move_h: false }],
+        vec![pp(1), Op::Extension(vec![223, 223])],
+        vec![Op::EnableFont(52), pp(3)],
+    ] {
+        emit_rt(&mut out, &seq);
+    }
+    // ---- rt: random sequences
+    for _ in 0..n {
+        let l = r.range(1, 10) as usize;
+        let ops: Vec<Op> = (0..l).map(|_| gen_op(&mut r)).collect();
+        emit_rt(&mut out, &ops);
+    }
+    // ---- dec: every opcode with every payload length (all truncations of every command)
+    for _ in 0..reps {
+        for c in 0..=255u8 {
+            for k in 0..=48usize {
+                let mut b = vec![c];
+                for _ in 0..k {
+                    b.push(gen_byte(&mut r));
+                }
+                if (243..=247).contains(&c) && r.chance(2, 3) {
+                    // keep the string lengths small so that complete commands occur too
+                    let at = match c {
+                        247 => 14,
+                        _ => (c - 242) as usize + 13,
+                    };
+                    if at < b.len() {
+                        b[at] = r.below(6) as u8;
+                    }
+                    if c != 247 && at + 1 < b.len() {
+                        b[at + 1] = r.below(6) as u8;
+                    }
+                }
+                if (239..=242).contains(&c) && b.len() > 1 && r.chance(2, 3) {
+                    let w = (c - 238) as usize;
+                    for j in 1..w.min(b.len()) {
+                        b[j] = 0;
+                    }
+                    if w < b.len() {
+                        b[w] = r.below(8) as u8;
+                    }
+                }
+                lossy += emit_dec(&mut out, &b) as u64;
+            }
+        }
+    }
+    // ---- dec: random byte strings
+    for _ in 0..n {
+        let l = r.below(40) as usize;
+        let b: Vec<u8> = (0..l).map(|_| if r.chance(1, 2) { gen_byte(&mut r) } else { r.below(256) as u8 }).collect();
+        lossy += emit_dec(&mut out, &b) as u64;
+    }
+    // ---- dec: truncations and one-byte mutations of valid streams
+    for i in 0..n {
+        let l = r.range(1, 6) as usize;
+        let ops: Vec<Op> = (0..l)
+            .map(|_| loop {
+                let op = gen_op(&mut r);
+                // keep the streams short: long strings are covered by the rt events
+                let big = match &op {
+                    Op::Extension(d) => d.len() > 12,
+                    Op::DefineFont { area, name, .. } => area.len() + name.len() > 12,
+                    Op::Preamble { comment, .. } => comment.len() > 12,
+                    _ => false,
+                };
+                if !big {
+                    break op;
+                }
+            })
+            .collect();
+        let mut b = dvi::serialize(ops);
+        if b.is_empty() {
+            continue;
+        }
+        if i % 2 == 0 {
+            let cut = r.below(b.len() as u64) as usize;
+            b.truncate(cut);
+        } else {
+            let at = r.below(b.len() as u64) as usize;
+            b[at] = gen_byte(&mut r);
+            if r.chance(1, 3) {
+                let cut = r.below(b.len() as u64 + 1) as usize;
+                b.truncate(cut);
+            }
+        }
+        lossy += emit_dec(&mut out, &b) as u64;
+    }
+    out.flush();
+    eprintln!("{}", json!({"directed": directed.len(), "lossy_strings": lossy}));
+    0
+}
+
+// ------------------------------------------------------------------------------------------
+// binding F: whole-stream events with unrestricted operands (fn = "rv" | "pipe")
+// ------------------------------------------------------------------------------------------
+fn emit_rv(out: &mut Out, ops: &[Op]) {
+    let (got, panic) = run_remover(ops);
+    match panic {
+        None => out.line(&json!({"fn":"rv","in":ops_json(ops),"out":ops_json(&got)})),
+        Some((site, msg)) => {
+            out.line(&json!({"fn":"rv","in":ops_json(ops),"out":ops_json(&got),"panic":[site,msg]}))
+        }
+    }
+}
+
+/// dvitools normalize: Deserializer -> VarRemover -> serialize (crates/dvi-bin/src/dvitools.rs)
+fn emit_pipe(out: &mut Out, bytes: &[u8]) {
+    let r = catch(|| {
+        let mut result = Ok(());
+        let mut i1 = dvi::Deserializer::new(bytes, &mut result);
+        let i2 = VarRemover::new(&mut i1);
+        let b = dvi::serialize(i2);
+        (b, result)
+    });
+    match r {
+        Ok((b, res)) => out.line(&json!({"fn":"pipe","bytes":bytes_json(bytes),"out":bytes_json(&b),"err":err_json(&res)})),
+        Err((site, msg)) => out.line(&json!({"fn":"pipe","bytes":bytes_json(bytes),"panic":[site,msg]})),
+    }
+}
+
+fn gen_small_machine_op(r: &mut Rng, full: bool) -> Op {
+    // short streams; `full`: operands over the whole 32-bit range (positions often overflow),
+    // otherwise |operand| <= 2^26 so that 14 ops cannot overflow
+    let mut gen_i32 = |r: &mut Rng| -> i32 {
+        let x = gen_i32(r);
+        if full {
+            x
+        } else {
+            x.clamp(-(1 << 26), 1 << 26)
+        }
+    };
+    match r.below(14) {
+        0 => Op::TypesetChar { char: gen_u32(r), move_h: r.chance(1, 2) },
+        1 => Op::TypesetRule { height: gen_i32(r), width: gen_i32(r), move_h: r.chance(1, 2) },
+        2 | 3 => Op::Push,
+        4 | 5 => Op::Pop,
+        6 => Op::Right(gen_i32(r)),
+        7 => Op::Down(gen_i32(r)),
+        8 | 9 | 10 => Op::SetVar(gen_var(r), gen_i32(r)),
+        11 | 12 => Op::Move(gen_var(r)),
+        _ => {
+            if r.chance(1, 2) {
+                Op::EnableFont(gen_u32(r))
+            } else {
+                Op::BeginPage { parameters: [0; 10], previous_begin_page: -1 }
+            }
+        }
+    }
+}
+
+fn pipe(args: &Args) -> i32 {
+    quiet_panics();
+    let seed: u64 = args.num("seed", 1);
+    let n: usize = args.num("n", 500);
+    let mut out = Out::new(args.str("out"));
+    let mut r = Rng::new(seed ^ 0xC16_F1FE);
+    // directed: positions that leave the 32-bit range (DVI registers are 32-bit, TeX.2021.584)
+    let big = i32::MAX;
+    let directed: Vec<Vec<Op>> = vec![
+        vec![Op::Right(big), Op::Right(1), Op::Move(Var::W)],
+        vec![Op::SetVar(Var::W, big), Op::Move(Var::W), Op::Move(Var::W)],
+        vec![Op::SetVar(Var::Y, i32::MIN), Op::Move(Var::Y)],
+        vec![Op::Down(i32::MIN), Op::Down(-1), Op::SetVar(Var::Z, 5)],
+        vec![Op::TypesetRule { height: 1, width: big, move_h: true }, Op::SetVar(Var::X, 1), Op::Move(Var::X)],
+        vec![Op::SetVar(Var::X, 1 << 30), Op::Push, Op::Move(Var::X), Op::Pop, Op::Move(Var::X), Op::Move(Var::X)],
+        vec![Op::SetVar(Var::W, big), Op::BeginPage { parameters: [0; 10], previous_begin_page: -1 }, Op::SetVar(Var::W, big), Op::Move(Var::X)],
+        vec![Op::Right(big), Op::Right(i32::MIN), Op::SetVar(Var::W, -1), Op::Move(Var::W)],
+    ];
+    for ops in &directed {
+        emit_rv(&mut out, ops);
+    }
+    for _ in 0..n {
+        let l = r.range(1, 14) as usize;
+        let full = r.chance(1, 4);
+        let ops: Vec<Op> = (0..l).map(|_| gen_small_machine_op(&mut r, full)).collect();
+        emit_rv(&mut out, &ops);
+    }
+    // pipeline on valid streams (moderate operands so that most do not overflow), their
+    // truncations, and on random bytes
+    for i in 0..n {
+        let l = r.range(1, 12) as usize;
+        let ops: Vec<Op> = (0..l)
+            .map(|_| {
+                if r.chance(1, 5) {
+                    loop {
+                        let op = gen_op(&mut r);
+                        let big = match &op {
+                            Op::Extension(d) => d.len() > 8,
+                            Op::DefineFont { area, name, .. } => area.len() + name.len() > 8 || !area.is_ascii() || !name.is_ascii(),
+                            Op::Preamble { comment, .. } => comment.len() > 8 || !comment.is_ascii(),
+                            _ => false,
+                        };
+                        if !big {
+                            break op;
+                        }
+                    }
+                } else {
+                    gen_machine_op(&mut r, 1 << 24, true)
+                }
+            })
+            .collect();
+        let mut b = dvi::serialize(ops);
+        match i % 4 {
+            0 => {
+                let cut = r.below(b.len() as u64 + 1) as usize;
+                b.truncate(cut);
+            }
+            1 => {
+                if !b.is_empty() {
+                    let at = r.below(b.len() as u64) as usize;
+                    b[at] = gen_byte(&mut r);
+                }
+            }
+            _ => {}
+        }
+        emit_pipe(&mut out, &b);
+    }
+    0
+}
+
+// ------------------------------------------------------------------------------------------
+// replay
+// ------------------------------------------------------------------------------------------
+fn replay(args: &Args) -> i32 {
+    quiet_panics();
+    let txt = std::fs::read_to_string(args.req("in")).expect("replay file");
+    let v: Value = serde_json::from_str(&txt).expect("replay json");
+    let mut out = Out::new(None);
+    // find the recorded input, whatever part produced it
+    let ev = if v.get("event").is_some() { &v["event"] } else { &v };
+    if let Some(h) = ev.get("history") {
+        let ops: Vec<Op> = h.as_array().unwrap().iter().map(op_of).collect();
+        emit_rv(&mut out, &ops);
+    } else if let Some(evs) = ev.get("events") {
+        let ops: Vec<Op> = evs
+            .as_array()
+            .unwrap()
+            .iter()
+            .filter(|e| e["ev"] == "op")
+            .map(|e| op_of(&e["in"]))
+            .collect();
+        emit_trace(&mut out, &ops);
+    } else if ev["fn"] == "rt" {
+        let ops: Vec<Op> = ev["ops"].as_array().unwrap().iter().map(op_of).collect();
+        emit_rt(&mut out, &ops);
+    } else if ev["fn"] == "dec" {
+        emit_dec(&mut out, &jbytes(&ev["bytes"]));
+    } else if ev["fn"] == "rv" {
+        let ops: Vec<Op> = ev["in"].as_array().unwrap().iter().map(op_of).collect();
+        emit_rv(&mut out, &ops);
+    } else if ev["fn"] == "pipe" {
+        emit_pipe(&mut out, &jbytes(&ev["bytes"]));
+    } else {
+        eprintln!("replay file has no recognisable input");
+        return 2;
+    }
+    0
 }
